@@ -173,9 +173,15 @@ var c01StmtWraps = []func(string) string{
 	func(s string) string { return s },
 	func(s string) string { return "{ " + s + " }" },
 	func(s string) string { return "if (1) { " + s + " }" },
-	func(s string) string { c01Lvl++; return fmt.Sprintf("for (i%d = 0; i%d < 2; i%d++) { %s }", c01Lvl, c01Lvl, c01Lvl, s) },
+	func(s string) string {
+		c01Lvl++
+		return fmt.Sprintf("for (i%d = 0; i%d < 2; i%d++) { %s }", c01Lvl, c01Lvl, c01Lvl, s)
+	},
 	func(s string) string { c01Lvl++; return fmt.Sprintf("for (v%d in [1, 2]) { %s }", c01Lvl, s) },
-	func(s string) string { c01Lvl++; return fmt.Sprintf("for (w%d = 0; w%d++ < 2; w%d = w%d) { %s }", c01Lvl, c01Lvl, c01Lvl, c01Lvl, s) },
+	func(s string) string {
+		c01Lvl++
+		return fmt.Sprintf("for (w%d = 0; w%d++ < 2; w%d = w%d) { %s }", c01Lvl, c01Lvl, c01Lvl, c01Lvl, s)
+	},
 	func(s string) string { return "match (1) { _ => { " + s + " } }" },
 	func(s string) string { return "y = match (1) { 2 => 0, _ => { " + s + " } }" },
 }
@@ -187,9 +193,13 @@ var c01Places = []func(body string) (string, []string){
 	func(b string) (string, []string) { return "BEGINFILE { " + b + " }\n{ print }", nil },
 	func(b string) (string, []string) { return "{ print }\nENDFILE { " + b + " }", nil },
 	func(b string) (string, []string) { return "{ print \"a\"; " + b + "; print \"b\" }\n{ print }", nil },
-	func(b string) (string, []string) { return "match ($) { _ => { " + b + " } } { print \"body\" }\n{ print }", nil },
+	func(b string) (string, []string) {
+		return "match ($) { _ => { " + b + " } } { print \"body\" }\n{ print }", nil
+	},
 	func(b string) (string, []string) { return "{ print }", []string{"match ($) { _ => { " + b + " } }"} },
-	func(b string) (string, []string) { return "{ print }", []string{"$", "match (1) { _ => { " + b + " } }"} },
+	func(b string) (string, []string) {
+		return "{ print }", []string{"$", "match (1) { _ => { " + b + " } }"}
+	},
 }
 
 func c01Matrix(c *fw.Ctx, part, parts int, viaCLI bool) {
